@@ -74,6 +74,15 @@ func checkC15(c c15Case) (Outcome, error) {
 				}
 			}
 		}
+		// results are owned by the caller too
+		for _, r := range r15 {
+			r.P, r.Q, r.P2, r.Q2, r.Pass, r.Name = -1, -1, -1, -1, !r.Pass, "x"
+		}
+		for i, r := range detect.Round15(data) {
+			if want := tests[i].Bytes(data, tests[i].Default); !sameBits(resultVals(r, i), want) || r.Name == "x" {
+				return out, violation("round-aliasing", "Round15 result %d changed after the caller overwrote the results of an earlier call", i+1)
+			}
+		}
 	case "readgroup":
 		dir := envOr("VERIF_SCRATCH", os.TempDir())
 		f := filepath.Join(dir, fmt.Sprintf("rg-%d.bin", len(data)))
@@ -108,6 +117,30 @@ func checkC15(c c15Case) (Outcome, error) {
 			for j := 0; j < 8; j++ {
 				if e[j] != bits[i*8+j] {
 					return out, violation("b2bit", "B2bit(%#x) bit %d wrong", data[i], j)
+				}
+			}
+		}
+		// what the library returns belongs to the caller: scribbling over it must not change later expansions
+		for i := range data {
+			e := rn.B2bit(data[i])
+			for j := range e {
+				e[j] = !e[j]
+			}
+		}
+		for j := range got {
+			got[j] = !got[j]
+		}
+		again := rn.B2bitArr(data)
+		for i := range bits {
+			if again[i] != bits[i] {
+				return out, violation("b2-aliasing", "after the caller overwrote slices returned by B2bit/B2bitArr, B2bitArr expands byte %d (%#x) wrongly: returned slices alias shared state", i/8, data[i/8])
+			}
+		}
+		for i := range data {
+			e := rn.B2bit(data[i])
+			for j := 0; j < 8; j++ {
+				if e[j] != bits[i*8+j] {
+					return out, violation("b2-aliasing", "after the caller overwrote an earlier result, B2bit(%#x) bit %d is wrong: returned slices alias shared state", data[i], j)
 				}
 			}
 		}
